@@ -110,6 +110,87 @@ pub fn h_sat_strong() {
     saturate_strong(cfg!(feature = "weak-ptrs"));
 }
 
+// ---- the limit reached by REAL pointers held inside a garbage cycle, one more clone attempted by a finalizer the collector runs
+pub struct Big {
+    pub id: usize,
+    pub many: std::cell::UnsafeCell<Vec<Cc<Big>>>,
+    pub back: std::cell::UnsafeCell<Option<Cc<Big>>>,
+}
+pub static mut BIG_DROPS: [u8; 2] = [0; 2];
+pub static mut BIG_FINS: [u8; 2] = [0; 2];
+pub static mut BIG_RESULT: u8 = 0;
+unsafe impl Trace for Big {
+    fn trace(&self, ctx: &mut Context<'_>) {
+        unsafe {
+            (*self.many.get()).trace(ctx);
+            (*self.back.get()).trace(ctx);
+        }
+    }
+}
+impl Finalize for Big {
+    fn finalize(&self) {
+        unsafe {
+            BIG_FINS[self.id] += 1;
+            if self.id == 0 {
+                // A holds 16382 pointers to X: one more must panic, leaving the count unchanged
+                let v = &*self.many.get();
+                if let Some(x) = v.first() {
+                    let before = x.strong_count();
+                    let r = catch_unwind(AssertUnwindSafe(|| x.clone()));
+                    match r {
+                        Ok(extra) => {
+                            BIG_RESULT |= 1; // no panic at the limit
+                            core::mem::forget(extra);
+                        }
+                        Err(_) => BIG_RESULT |= 2,
+                    }
+                    if x.strong_count() != before {
+                        BIG_RESULT |= 4; // count changed by the failed operation
+                    }
+                }
+            }
+        }
+    }
+}
+impl Drop for Big {
+    fn drop(&mut self) {
+        unsafe { BIG_DROPS[self.id] += 1 };
+    }
+}
+
+#[no_mangle]
+pub fn h_sat_inlist() {
+    let x = Cc::new(Big { id: 1, many: std::cell::UnsafeCell::new(Vec::new()), back: std::cell::UnsafeCell::new(None) });
+    let a = Cc::new(Big { id: 0, many: std::cell::UnsafeCell::new(Vec::new()), back: std::cell::UnsafeCell::new(None) });
+    unsafe {
+        let v = &mut *a.many.get();
+        // the handle `x` itself is the 16382nd pointer: it is moved into A at the end
+        for _ in 0..(MAX_STRONG - 1) {
+            v.push(x.clone());
+        }
+        *x.back.get() = Some(a.clone());
+        check(x.strong_count() == MAX_STRONG, 101);
+        // one more at top level panics as well
+        check(catch_unwind(AssertUnwindSafe(|| x.clone())).is_err(), 102);
+        v.push(x);
+    }
+    drop(a);
+    let p = catch_unwind(AssertUnwindSafe(|| collect_cycles())).is_err();
+    let _ = catch_unwind(AssertUnwindSafe(|| collect_cycles()));
+    unsafe {
+        check(!p, 103); // the finalizer caught the panic itself
+        check(BIG_RESULT & 1 == 0, 111); // C16: clone panics at the limit, also for an object the collector has in its lists
+        check(BIG_RESULT & 4 == 0, 112); // count unchanged
+        check(BIG_RESULT & 2 != 0 || !cfg!(feature = "finalization"), 113);
+        check(BIG_DROPS[0] == 1 && BIG_DROPS[1] == 1, 114); // collected afterwards: dropped once
+        if cfg!(feature = "finalization") {
+            check(BIG_FINS[0] == 1 && BIG_FINS[1] == 1, 115); // finalized once
+        }
+        check(state::allocated_bytes().unwrap_or(1) == 0 && heap_live() == 0, 116); // freed once
+    }
+    cover(1);
+}
+
 /// Weak count 1 + m for a symbolic m; one more Weak by downgrade or Weak::clone.
 #[cfg(feature = "weak-ptrs")]
 #[no_mangle]
